@@ -11,7 +11,7 @@ from ..core import real
 from ..oracle import caching_flags_off
 from ..oracle import (L, ed_verify, sig_message, base_mult, point_add, pubkey_of_seed,
                       scalar_to_int, int_to_scalar, as_key_arg, PREFIXES,
-                      LOCK_FORMS, LIMITS, in_form, ARG_STYLES, styled_flags, malleate,
+                      LOCK_FORMS, LIMITS, in_form, ARG_STYLES, styled_flags, malleate, pick_bit,
                       styled_sigfields, maybe_twice)
 
 PID = 'C17'
@@ -49,7 +49,8 @@ REQUIRED_PROBES = ['corrupt_sa', 'corrupt_R', 'corrupt_T', 'corrupt_X', 'corrupt
                    'wrong_scalar_decrypt', 'crash_between_decrypt_and_publish',
                    'splice', 'misroute', 'honest_spend_accepted', 'extract',
                    'check_after_unrelated_derive', 'two_adapters_in_one_execution',
-                   'neutral_tweak_point_offered', 'signature_extension_configured_by_prefix'] + \
+                   'neutral_tweak_point_offered', 'signature_extension_configured_by_prefix',
+                   'negated_adapter_scalar', 'negated_nonce_point'] + \
     ['variant_' + v for v in VARIANTS]
 
 
@@ -146,7 +147,9 @@ def gen_steps(rng, eid, ex, co, others, fault_free):
     st = []
 
     def cor(field, bit=None):
-        return {'kind': 'corrupt', 'field': field, 'bit': rng.below(256) if bit is None else bit}
+        return {'kind': 'corrupt', 'field': field, 'bit': pick_bit(rng, 256) if bit is None else bit,
+                # one time in five not a flipped bit but the negated scalar / point
+                'negate': bit is None and rng.chance(1, 5)}
     fault_offer = None
     fault_adapt = None
     view = None
@@ -155,13 +158,13 @@ def gen_steps(rng, eid, ex, co, others, fault_free):
             if rng.chance(1, 2):
                 fault_offer = cor('T')
             else:
-                view = {'field': 'T', 'bit': rng.below(256)}
+                view = {'field': 'T', 'bit': pick_bit(rng, 256)}
         elif co in ('sa', 'R'):
             fault_adapt = cor(co)
         elif co == 'sa_bit255':
             fault_adapt = cor('sa', 255)
         elif co == 'X':
-            view = {'field': 'X', 'bit': rng.below(256)}
+            view = {'field': 'X', 'bit': pick_bit(rng, 256)}
         elif co == 'm':
             view = {'field': 'm', 'bit': rng.below(4096)}
         elif rng.chance(1, 6):
@@ -499,8 +502,14 @@ def execute(plan, run):
                     sam = flip(sa, f['bit'])
                     if f['bit'] % 256 == 255:
                         run.probe('sa_bit255')
+                    if f.get('negate') and scalar_to_int(sa) % L:
+                        sam = int_to_scalar(L - scalar_to_int(sa) % L)      # -sa
+                        run.probe('negated_adapter_scalar')
                 else:
                     Rm = flip(R, f['bit'])
+                    if f.get('negate'):
+                        Rm = flip(R, 255)                                   # -R
+                        run.probe('negated_nonce_point')
                 run.fault('corrupt_' + f['field'])
                 run.probe('corrupt_' + f['field'])
             e.inbox.append((Rm, sam))
